@@ -82,6 +82,14 @@ def ymd_middle(f: str, s: int) -> dt.date:
     raise NotImplementedError
 
 
+def containing(f: str, d: dt.date) -> int:
+    """Serial of the period of frequency f that contains calendar day d."""
+    if f == "D":
+        return d.toordinal()
+    v = FREQ_VALUE[f]
+    return d.year * v + (d.month - 1) * v // 12
+
+
 def serial_from_year_segment(f: str, year: int, seg: int) -> int:
     if f == "D":
         return dt.date(year, 1, 1).toordinal() + seg - 1
